@@ -8,6 +8,7 @@ import MatidModel
 import MatidGen.Radii
 import MatidGen.Centring
 import MatidGen.WyckoffRule
+import MatidGen.DimRule
 
 open Matid Matid.Parse
 
@@ -234,6 +235,20 @@ def opMatch (args : List String) : String :=
     | _, _, _, _, _, _, _, _, _ => "bad-op"
   | _ => "bad-op"
 
+/-- `dim <cell> <pbc> <threshold> <radii> <positions>` -/
+def opDim (args : List String) : String :=
+  match args with
+  | [cs, ps, thrS, radS, pos] =>
+    match parseCell? cs, parsePbc? ps, parseRat? thrS, parseList? parseRat? radS, parseV3s? pos with
+    | some c, some p, some thr, some radii, some positions =>
+      if radii.length != positions.length || positions.isEmpty then "bad-op" else
+      match Matid.Dim.getDimensionality MatidGen.DimRule.wrapsFirst positions c p radii thr with
+      | .error => "ValueError"
+      | .none lab => "None " ++ showList toString lab
+      | .dim d lab n2 => toString d ++ " " ++ showList toString lab ++ " n2x=" ++ toString n2
+    | _, _, _, _, _ => "bad-op"
+  | _ => "bad-op"
+
 end geom
 
 def step (line : String) : String :=
@@ -250,6 +265,7 @@ def step (line : String) : String :=
   | "query" :: args => opQuery args
   | "disp" :: args => opDisp args
   | "match" :: args => opMatch args
+  | "dim" :: args => opDim args
   | _ => "bad-op"
 
 partial def loop (h : IO.FS.Stream) (out : IO.FS.Stream) : IO Unit := do
